@@ -432,7 +432,61 @@ def _slice_get(ex, c, a, d):
     return mk_option(False, None, d)
 
 
+def _as_items(ex, r):
+    """items yielded by iterating the value `r` (list iterator, list, or Option with a concrete discriminant); None if unknown"""
+    from .exec import ListV
+    if _is_it(r):
+        return _rest(ex, r)
+    if isinstance(r, ListV):
+        return list(r.items)
+    if isinstance(r, EnumV) and isinstance(r.ty, str) and "Option" in r.ty:
+        some = r.disc == 1 if isinstance(r.disc, int) else ex.decide(T.eq(r.disc, 1))
+        return [r.payload(1)[0]] if some else []
+    return None
+
+
+def _it_flat_map(ex, c, a, d):
+    """Iterator::flat_map over a list iterator: the closure is run per item and the iterators it returns are concatenated"""
+    from .exec import ENV_PASS
+    it = deref(ex, a[0])
+    if not _is_it(it):
+        return ENV_PASS
+    out = []
+    for x in _rest(ex, it):
+        r = ex.call_value(ex.top_frame, a[1], [x], "?")
+        items = _as_items(ex, r)
+        if items is None:
+            raise Stop(f"flat_map: closure returned a non-list iterator {str(r)[:80]}")
+        out += items
+    return _owned(out)
+
+
+def _it_rev(ex, c, a, d):
+    from .exec import ENV_PASS
+    it = deref(ex, a[0])
+    if not _is_it(it):
+        return ENV_PASS
+    return _owned(list(reversed(_rest(ex, it))))
+
+
+def _it_flatten(ex, c, a, d):
+    from .exec import ENV_PASS
+    it = deref(ex, a[0])
+    if not _is_it(it):
+        return ENV_PASS
+    out = []
+    for x in _rest(ex, it):
+        items = _as_items(ex, deref(ex, x) if isinstance(x, RefV) else x)
+        if items is None:
+            raise Stop(f"flatten: item is not iterable {str(x)[:80]}")
+        out += items
+    return _owned(out)
+
+
 LIST_ADAPTORS2 = [
+    (rx(r" as (?:std::iter::|core::iter::)?Iterator>::flat_map::<"), _it_flat_map),
+    (rx(r" as (?:std::iter::|core::iter::)?Iterator>::flatten$"), _it_flatten),
+    (rx(r" as (?:std::iter::|core::iter::)?(?:DoubleEnded)?Iterator>::rev$"), _it_rev),
     (rx(r" as (?:std::iter::|core::iter::)?Iterator>::any::<"), _it_any),
     (rx(r" as (?:std::iter::|core::iter::)?Iterator>::enumerate$"), _it_enumerate),
     (rx(r" as (?:std::iter::|core::iter::)?Iterator>::for_each::<"), _it_for_each),
